@@ -392,7 +392,7 @@ def run(eng: Engine, ck: Check):
     # re-evaluation precedes starting transfers in the same cycle
     if msn and mtn:
         # on the flag-set path manage_transfers is only reached through manage_shares_changed
-        asm = [a for a in c.nodes if a.kind == 'assume' and a.polarity and 'SHARES_CHANGE' in unparse(a.ast)]
+        asm = [a for a in c.nodes if a.kind == 'assume' and a.polarity and 'SHARES_CHANGE' in unparse(expand_aliases(mj, a.ast))]
         p = c.find_path(asm, lambda n: n in mtn, avoid=lambda n: n in msn) if asm else 'x'
         ck.ob('R-C08-REEVAL', mj, mj.node, 'with the flag set, uploads are re-evaluated before transfers are started in that cycle',
               p is None, 'manage_transfers reachable first', construct='reeval before start')
